@@ -1,5 +1,925 @@
-//! C17 harness — to be written (see /verif/mc/HARNESS_GUIDE.md).
-fn main() {
-    eprintln!("MACHINERY-ERROR: harness C17 not built yet");
-    std::process::exit(2);
+//! C17 — distance functions are metrics and equal their closed forms.
+//!
+//! E1 (stateless choice-tree exploration) over complete finite spaces of vectors: every pair and
+//! every triple of vectors of a lattice alphabet^len (lengths 1..5), of a catalogue of structured
+//! vectors for every length 1..30, each at several magnitudes and for f64 and f32; every metric
+//! (Euclidean, Manhattan, Minkowski p = 1..8, Hamming over float and integer elements, Mahalanobis)
+//! is called through `Distances::*` / `Distance::distance` on the real library code. Mahalanobis is
+//! additionally built from every small integer SPD covariance matrix, from structured SPD families
+//! up to order 12, and from every full-rank lattice data set of up to 5 rows.
+//!
+//! The oracle is a double-double evaluation of the closed forms (module `dd`), the metric axioms,
+//! the coincidence clauses and the rejection of mismatched lengths.
+
+mod cat;
+mod dd;
+
+use mc_core::{self as mc, json, Harness, Job, Plan, Tier, Value};
+use smartcore::linalg::naive::dense_matrix::DenseMatrix;
+use smartcore::math::distance::euclidian::Euclidian;
+use smartcore::math::distance::hamming::Hamming;
+use smartcore::math::distance::mahalanobis::Mahalanobis;
+use smartcore::math::distance::manhattan::Manhattan;
+use smartcore::math::distance::minkowski::Minkowski;
+use smartcore::math::distance::{Distance, Distances};
+use smartcore::math::num::RealNumber;
+use std::any::Any;
+use std::cell::RefCell;
+use std::rc::Rc;
+
+struct C17;
+
+// ------------------------------------------------------------------------------------------------
+// the two floating-point types
+
+trait Fl: RealNumber + 'static {
+    const NAME: &'static str;
+    const EPS: f64;
+    /// 2^EMAX overflows
+    const EMAX: i32;
+    /// 2^EMIN is the smallest positive normal number
+    const EMIN: i32;
+    fn of(v: f64) -> Self;
+    fn f(self) -> f64;
 }
+
+impl Fl for f64 {
+    const NAME: &'static str = "f64";
+    const EPS: f64 = f64::EPSILON;
+    const EMAX: i32 = 1024;
+    const EMIN: i32 = -1022;
+    fn of(v: f64) -> f64 {
+        v
+    }
+    fn f(self) -> f64 {
+        self
+    }
+}
+
+impl Fl for f32 {
+    const NAME: &'static str = "f32";
+    const EPS: f64 = f32::EPSILON as f64;
+    const EMAX: i32 = 128;
+    const EMIN: i32 = -126;
+    fn of(v: f64) -> f32 {
+        v as f32
+    }
+    fn f(self) -> f64 {
+        self as f64
+    }
+}
+
+// ------------------------------------------------------------------------------------------------
+// metrics of the "lp" executions
+
+#[derive(Clone, Copy, PartialEq, Debug)]
+enum Met {
+    Eu,
+    Ma,
+    Mi(u16),
+    /// Hamming over the float elements themselves
+    HaF,
+    /// Hamming over i64 codes of the elements (equal codes <=> equal values)
+    HaI,
+    /// Mahalanobis with the identity covariance of matching order
+    MhI,
+}
+
+const METS: [Met; 13] = [Met::Eu, Met::Ma, Met::Mi(1), Met::Mi(2), Met::Mi(3), Met::Mi(4), Met::Mi(5), Met::Mi(6), Met::Mi(7), Met::Mi(8), Met::HaF, Met::HaI, Met::MhI];
+const I_EU: usize = 0;
+const I_MA: usize = 1;
+const I_MI1: usize = 2;
+const I_MI2: usize = 3;
+const I_MHI: usize = 12;
+
+impl Met {
+    fn comp(self) -> &'static str {
+        match self {
+            Met::Eu => "euclidian",
+            Met::Ma => "manhattan",
+            Met::Mi(_) => "minkowski",
+            Met::HaF | Met::HaI => "hamming",
+            Met::MhI => "mahalanobis",
+        }
+    }
+    fn label(self) -> String {
+        match self {
+            Met::Eu => "Euclidian".into(),
+            Met::Ma => "Manhattan".into(),
+            Met::Mi(p) => format!("Minkowski(p={})", p),
+            Met::HaF => "Hamming<float elements>".into(),
+            Met::HaI => "Hamming<i64 elements>".into(),
+            Met::MhI => "Mahalanobis(identity covariance)".into(),
+        }
+    }
+    /// exponent of the powers the straightforward evaluation forms (None: no powers)
+    fn power(self) -> Option<i32> {
+        match self {
+            Met::Eu | Met::MhI => Some(2),
+            Met::Mi(p) if p >= 2 => Some(p as i32),
+            _ => None,
+        }
+    }
+    fn over_name(self) -> &'static str {
+        match self {
+            Met::Mi(_) => "powers-overflow",
+            _ => "squares-overflow",
+        }
+    }
+    fn under_name(self) -> &'static str {
+        match self {
+            Met::Mi(_) => "powers-underflow",
+            _ => "squares-underflow",
+        }
+    }
+    /// Input class "an intermediate power leaves the range of T although the distance itself is
+    /// comfortably representable", decided from the input alone: `l2` = floor(log2(max |x_i-y_i|)).
+    fn range_class<T: Fl>(self, n: usize, l2: i32) -> Option<&'static str> {
+        let p = self.power()?;
+        let logn = (n as f64).log2().ceil() as i32;
+        if (l2 + 1) * p + logn >= T::EMAX {
+            Some(self.over_name())
+        } else if l2 * p < T::EMIN {
+            Some(self.under_name())
+        } else {
+            None
+        }
+    }
+    /// tolerance of the closed-form comparison in units of eps_T * |reference|
+    fn tol_units(self, n: usize, refv: f64) -> f64 {
+        let n = n as f64;
+        match self {
+            Met::Eu | Met::Ma => 8.0 + n,
+            // the exponent 1/p is rounded: relative effect |ln d| * eps/2 on the root
+            Met::Mi(_) => 8.0 + n + if refv > 0.0 { refv.ln().abs() } else { 0.0 },
+            Met::HaF | Met::HaI => 2.0,
+            Met::MhI => maha_tol_units(n as usize, 1.0),
+        }
+    }
+}
+
+fn maha_tol_units(n: usize, cond: f64) -> f64 {
+    (32.0 + 8.0 * (n * n) as f64) * cond
+}
+
+// ------------------------------------------------------------------------------------------------
+// per-job caches (pure functions of the job; workers run one job after the other)
+
+thread_local! {
+    static CACHE: RefCell<Option<(String, Rc<dyn Any>)>> = RefCell::new(None);
+}
+
+fn cached<V: 'static>(key: &str, build: impl FnOnce() -> V) -> Rc<V> {
+    let hit = CACHE.with(|c| match &*c.borrow() {
+        Some((k, v)) if k == key => v.clone().downcast::<V>().ok(),
+        _ => None,
+    });
+    if let Some(v) = hit {
+        return v;
+    }
+    let v = Rc::new(build());
+    CACHE.with(|c| *c.borrow_mut() = Some((key.to_string(), v.clone() as Rc<dyn Any>)));
+    v
+}
+
+/// A catalogue of vectors in type T.
+struct Cat<T: Fl> {
+    names: Vec<String>,
+    /// the exact values of the typed vectors, widened to f64
+    vals: Vec<Vec<f64>>,
+    typed: Vec<Vec<T>>,
+    /// integer codes: equal code <=> equal value
+    codes: Vec<Vec<i64>>,
+    n: usize,
+}
+
+fn build_cat<T: Fl>(vs: Vec<(String, Vec<f64>)>, scale: f64) -> Cat<T> {
+    let n = vs.first().map(|v| v.1.len()).unwrap_or(0);
+    let typed: Vec<Vec<T>> = vs.iter().map(|(_, v)| v.iter().map(|x| T::of(x * scale)).collect()).collect();
+    let vals: Vec<Vec<f64>> = typed.iter().map(|v| v.iter().map(|x| x.f()).collect()).collect();
+    let codes = vals.iter().map(|v| v.iter().map(|x| (x + 0.0).to_bits() as i64).collect()).collect();
+    Cat { names: vs.into_iter().map(|v| v.0).collect(), vals, typed, codes, n }
+}
+
+fn scale_of(job: &Job) -> f64 {
+    let s10 = match job.params["sc10"].as_i64().unwrap_or(0) {
+        0 => 1.0,
+        6 => 1e6,
+        -6 => 1e-6,
+        3 => 1e3,
+        -3 => 1e-3,
+        other => panic!("unsupported decimal scale exponent {}", other),
+    };
+    dd::ldexp(s10, job.params["sc2"].as_i64().unwrap_or(0) as i32)
+}
+
+fn scale_text(job: &Job) -> String {
+    format!("1e{} * 2^{}", job.params["sc10"].as_i64().unwrap_or(0), job.params["sc2"].as_i64().unwrap_or(0))
+}
+
+fn lp_catalogue<T: Fl>(job: &Job) -> Cat<T> {
+    let scale = scale_of(job);
+    let vs: Vec<(String, Vec<f64>)> = match job.s("src") {
+        "lattice" => {
+            let (a, b) = cat::perturbation(job.params["seed"].as_u64().unwrap_or(0));
+            cat::lattice(cat::alphabet(job.s("alpha")), job.u("len")).into_iter().map(|v| (String::new(), v.iter().map(|x| a * x + b).collect())).collect()
+        }
+        "structured" => cat::structured(job.u("len"), job.b("full")),
+        other => panic!("unknown vector source {}", other),
+    };
+    build_cat::<T>(vs, scale)
+}
+
+// ------------------------------------------------------------------------------------------------
+// calling the library
+
+fn eval<T: Fl>(m: Met, mh: Option<&Mahalanobis<T, DenseMatrix<T>>>, c: &Cat<T>, a: usize, b: usize) -> Result<f64, mc::PanicInfo> {
+    mc::guard(|| match m {
+        Met::Eu => Distances::euclidian().distance(&c.typed[a], &c.typed[b]).f(),
+        Met::Ma => Distances::manhattan().distance(&c.typed[a], &c.typed[b]).f(),
+        Met::Mi(p) => Distances::minkowski(p).distance(&c.typed[a], &c.typed[b]).f(),
+        Met::HaF => <Hamming as Distance<Vec<T>, T>>::distance(&Distances::hamming(), &c.typed[a], &c.typed[b]).f(),
+        Met::HaI => <Hamming as Distance<Vec<i64>, T>>::distance(&Distances::hamming(), &c.codes[a], &c.codes[b]).f(),
+        Met::MhI => mh.expect("identity Mahalanobis built").distance(&c.typed[a], &c.typed[b]).f(),
+    })
+}
+
+fn identity_maha<T: Fl>(n: usize) -> Result<Mahalanobis<T, DenseMatrix<T>>, mc::PanicInfo> {
+    mc::guard(|| {
+        let id: DenseMatrix<T> = mc_sc::dm::<T>(&mc::oracle::eye(n));
+        Mahalanobis::new_from_covariance(&id)
+    })
+}
+
+// ------------------------------------------------------------------------------------------------
+// judging
+
+/// counters of how much of the tolerance the unchanged library uses (calibration headroom)
+fn headroom(comp: &'static str, ratio: f64) {
+    let name = match (comp, ratio > 0.5, ratio > 0.25, ratio > 0.125) {
+        (_, false, false, false) => return,
+        ("euclidian", true, _, _) => "tol_used_gt_1/2:euclidian",
+        ("euclidian", _, true, _) => "tol_used_gt_1/4:euclidian",
+        ("euclidian", _, _, _) => "tol_used_gt_1/8:euclidian",
+        ("manhattan", true, _, _) => "tol_used_gt_1/2:manhattan",
+        ("manhattan", _, true, _) => "tol_used_gt_1/4:manhattan",
+        ("manhattan", _, _, _) => "tol_used_gt_1/8:manhattan",
+        ("minkowski", true, _, _) => "tol_used_gt_1/2:minkowski",
+        ("minkowski", _, true, _) => "tol_used_gt_1/4:minkowski",
+        ("minkowski", _, _, _) => "tol_used_gt_1/8:minkowski",
+        ("hamming", true, _, _) => "tol_used_gt_1/2:hamming",
+        ("hamming", _, true, _) => "tol_used_gt_1/4:hamming",
+        ("hamming", _, _, _) => "tol_used_gt_1/8:hamming",
+        (_, true, _, _) => "tol_used_gt_1/2:mahalanobis",
+        (_, _, true, _) => "tol_used_gt_1/4:mahalanobis",
+        (_, _, _, _) => "tol_used_gt_1/8:mahalanobis",
+    };
+    mc::count(name);
+}
+
+fn site(comp: &str, clause: &str, class: Option<&'static str>) -> String {
+    format!("{}.distance:{}", comp, class.unwrap_or(clause))
+}
+
+struct PairObs {
+    dxy: f64,
+    refv: f64,
+    tol: f64,
+    ok: bool,
+}
+
+/// The clauses that concern one pair (x, y) and one metric. `ctx` renders the case for messages.
+#[allow(clippy::too_many_arguments)]
+fn judge_pair<T: Fl>(comp: &'static str, label: &str, class: Option<&'static str>, same: bool, d: [Result<f64, mc::PanicInfo>; 3], refv: f64, tol_units: f64, ctx: &dyn Fn() -> String) -> PairObs {
+    let mut vals = [0.0f64; 3];
+    for (k, r) in d.iter().enumerate() {
+        match r {
+            Ok(v) => vals[k] = *v,
+            Err(p) => {
+                mc::violation(format!("{}.distance:panic", comp), format!("{} {}: {} on equal-length finite vectors", label, ctx(), p.brief()));
+                return PairObs { dxy: f64::NAN, refv, tol: 0.0, ok: false };
+            }
+        }
+    }
+    let [dxy, dyx, dxx] = vals;
+    let tol = tol_units * T::EPS * refv;
+    let mut ok = true;
+    if dxy.is_nan() || dxy < 0.0 {
+        mc::violation(site(comp, "not-nonnegative", class), format!("{} {}: d(x,y) = {:e} is not a non-negative number (closed form {:e})", label, ctx(), dxy, refv));
+        ok = false;
+    }
+    if !(dxx == 0.0) {
+        mc::violation(site(comp, "identical-arguments", None), format!("{} {}: d(x,x) = {:e}, expected 0", label, ctx(), dxx));
+        ok = false;
+    }
+    if same && !(dxy == 0.0) {
+        mc::violation(site(comp, "identical-arguments", None), format!("{} {}: x and y have identical components but d(x,y) = {:e}", label, ctx(), dxy));
+        ok = false;
+    }
+    if !((dxy - dyx).abs() <= tol || dxy == dyx) {
+        mc::violation(site(comp, "symmetry", class), format!("{} {}: d(x,y) = {:e} but d(y,x) = {:e}", label, ctx(), dxy, dyx));
+        ok = false;
+    } else if dxy.to_bits() == dyx.to_bits() {
+        mc::count("symmetry_bit_exact");
+    }
+    if !same && !dxy.is_nan() && dxy >= 0.0 {
+        let err = (dxy - refv).abs();
+        if !(err <= tol) {
+            mc::violation(
+                site(comp, "closed-form", class),
+                format!("{} {} [{}]: d(x,y) = {:e}, closed form {:e} (error {:.3e} = {:.1} eps_{} relative, allowed {:.1})", label, ctx(), T::NAME, dxy, refv, err, err / (T::EPS * refv), T::NAME, tol_units),
+            );
+            ok = false;
+        } else if class.is_none() {
+            if err / tol > 0.3 && std::env::var_os("C17_CALIB").is_some() {
+                eprintln!("CALIB {} {} [{}] ratio {:.3} (err {:.2} eps, allowed {:.1})", label, ctx(), T::NAME, err / tol, err / (T::EPS * refv), tol_units);
+            }
+            headroom(comp, err / tol);
+        }
+    }
+    PairObs { dxy, refv, tol, ok }
+}
+
+/// d(x,y) <= d(x,z) + d(z,y) up to rounding: each of the three values may be off by `rel` relative.
+fn triangle_ok(dxy: f64, dxz: f64, dzy: f64, rel: f64) -> bool {
+    let sum = dxz + dzy;
+    dxy <= sum + 3.0 * rel * (sum + dxy) || (dxy.is_infinite() && sum.is_infinite())
+}
+
+// ------------------------------------------------------------------------------------------------
+// "lp" executions: one ordered pair (x, y) of a vector catalogue, all 13 metrics, and — for the
+// triangle inequality — every z of the catalogue
+
+fn max_l2(x: &[f64], y: &[f64]) -> Option<i32> {
+    let m = x.iter().zip(y).fold(0.0f64, |m, (a, b)| m.max((a - b).abs()));
+    if m > 0.0 && m.is_finite() {
+        Some(dd::ilog2(m))
+    } else {
+        None
+    }
+}
+
+fn lp_exec<T: Fl>(job: &Job) {
+    let c: Rc<Cat<T>> = cached(&job.name, || lp_catalogue::<T>(job));
+    let big = c.typed.len();
+    let (lo, hi) = (job.params["lo"].as_u64().unwrap_or(0) as usize, job.params["hi"].as_u64().map(|h| h as usize).unwrap_or(big).min(big));
+    let i = lo + mc::choose(hi - lo);
+    let j = mc::choose(big);
+    let n = c.n;
+    let (xv, yv) = (&c.vals[i], &c.vals[j]);
+    let df = dd::diff(xv, yv);
+    let same = df.zero;
+    let l2 = if same { None } else { Some(df.log2_max()) };
+    let ctx = || {
+        let nm = |k: usize| if c.names[k].is_empty() { String::new() } else { format!(" ({})", c.names[k]) };
+        format!("n={} x={:?}{} y={:?}{}", n, xv, nm(i), yv, nm(j))
+    };
+    let mh = match identity_maha::<T>(n) {
+        Ok(m) => Some(m),
+        Err(p) => {
+            mc::violation("mahalanobis.new_from_covariance:panic", format!("identity covariance of order {} [{}]: {}", n, T::NAME, p.brief()));
+            None
+        }
+    };
+    let refs = [df.euclid().to_f64(), df.manhattan().to_f64()];
+    let mut obs: Vec<Option<PairObs>> = Vec::with_capacity(METS.len());
+    let mut digest = 0x17u64;
+    for m in METS {
+        if m == Met::MhI && mh.is_none() {
+            obs.push(None);
+            continue;
+        }
+        let refv = if same {
+            0.0
+        } else {
+            match m {
+                Met::Eu | Met::MhI => refs[0],
+                Met::Ma => refs[1],
+                Met::Mi(p) => df.minkowski(p as u32).to_f64(),
+                Met::HaF | Met::HaI => df.mismatches() as f64 / n as f64,
+            }
+        };
+        let class = l2.and_then(|l| m.range_class::<T>(n, l));
+        if class.is_some() {
+            mc::count("intermediate_out_of_range_cases");
+        }
+        let d = [eval(m, mh.as_ref(), &c, i, j), eval(m, mh.as_ref(), &c, j, i), eval(m, mh.as_ref(), &c, i, i)];
+        let o = judge_pair::<T>(m.comp(), &m.label(), class, same, d, refv, m.tol_units(n, refv), &ctx);
+        digest = mc::hash::mix(digest, mc::hash::canon_bits(o.dxy));
+        obs.push(Some(o));
+    }
+    // coincidence clauses
+    let coincide = |a: usize, b: usize, comp: &str, clause: &str| {
+        if let (Some(oa), Some(ob)) = (&obs[a], &obs[b]) {
+            if oa.dxy.is_nan() || ob.dxy.is_nan() {
+                return;
+            }
+            let class = l2.and_then(|l| METS[a].range_class::<T>(n, l).or(METS[b].range_class::<T>(n, l)));
+            mc::count("coincidence_checks");
+            if !((oa.dxy - ob.dxy).abs() <= oa.tol + ob.tol || oa.dxy == ob.dxy) {
+                mc::violation(site(comp, clause, class), format!("{} = {:e} but {} = {:e} for {} [{}]", METS[a].label(), oa.dxy, METS[b].label(), ob.dxy, ctx(), T::NAME));
+            }
+        }
+    };
+    coincide(I_MI1, I_MA, "minkowski", "p1-vs-manhattan");
+    coincide(I_MI2, I_EU, "minkowski", "p2-vs-euclidian");
+    coincide(I_MHI, I_EU, "mahalanobis", "identity-vs-euclidian");
+
+    // triangle inequality through every z of the catalogue
+    let (mut triples, mut tight) = (0u64, 0u64);
+    if job.params["tri"].as_bool().unwrap_or(true) {
+        for k in 0..big {
+            let zv = &c.vals[k];
+            let l3 = [l2, max_l2(xv, zv), max_l2(zv, yv)].iter().flatten().max().copied();
+            for (mi, m) in METS.iter().enumerate() {
+                let Some(o) = &obs[mi] else { continue };
+                if o.dxy.is_nan() {
+                    continue;
+                }
+                let (dxz, dzy) = match (eval(*m, mh.as_ref(), &c, i, k), eval(*m, mh.as_ref(), &c, k, j)) {
+                    (Ok(a), Ok(b)) => (a, b),
+                    _ => continue, // reported when (x,z) / (z,y) is the pair of an execution
+                };
+                triples += 1;
+                let rel = m.tol_units(n, o.refv.max(1.0)) * T::EPS;
+                if !triangle_ok(o.dxy, dxz, dzy, rel) {
+                    let class = l3.and_then(|l| m.range_class::<T>(n, l));
+                    mc::violation(
+                        site(m.comp(), "triangle", class),
+                        format!("{} {} z={:?} [{}]: d(x,y) = {:e} > d(x,z) + d(z,y) = {:e} + {:e}", m.label(), ctx(), zv, T::NAME, o.dxy, dxz, dzy),
+                    );
+                } else if o.dxy > 0.0 && dxz > 0.0 && dzy > 0.0 && o.dxy >= (dxz + dzy) * (1.0 - rel) {
+                    tight += 1;
+                }
+            }
+        }
+    }
+    mc::count_n("triples_checked", triples);
+    mc::count_n("triangle_tight", tight);
+    mc::count_n("pair_metric_checks", METS.len() as u64);
+    if !same {
+        mc::nontrivial();
+        mc::count("pairs_distinct_vectors");
+        if df.mismatches() == 1 {
+            mc::count("pairs_one_coordinate_differs");
+        }
+    } else {
+        mc::count("pairs_identical_vectors");
+    }
+    mc::outcome(digest);
+    mc::describe(|| {
+        json!({
+            "family": job.s("src"), "type": T::NAME, "scale": scale_text(job), "n": n,
+            "x": xv, "y": yv,
+            "distances": METS.iter().zip(&obs).map(|(m, o)| json!({"metric": m.label(), "library": o.as_ref().map(|o| o.dxy), "closed_form": o.as_ref().map(|o| o.refv), "ok": o.as_ref().map(|o| o.ok)})).collect::<Vec<_>>(),
+            "triples_checked": triples,
+        })
+    });
+}
+
+// ------------------------------------------------------------------------------------------------
+// Mahalanobis from a covariance matrix
+
+struct CovCat<T: Fl> {
+    mats: Vec<(String, cat::Mat, f64)>, // name, exact typed entries (scaled), cond2
+    q: Cat<T>,
+}
+
+fn cov_catalogue<T: Fl>(job: &Job) -> CovCat<T> {
+    let n = job.u("dim");
+    let cs = dd::ldexp(1.0, job.params["cs2"].as_i64().unwrap_or(0) as i32);
+    let raw = match job.s("set") {
+        "spd2" => cat::spd2(),
+        "spd3q" => cat::spd3(2, &[0, 1, -1]),
+        "spd3t" => cat::spd3(3, &[0, 1, -1, 2, -2]),
+        "struct" => cat::spd_structured(n),
+        other => panic!("unknown covariance set {}", other),
+    };
+    let mats = raw
+        .into_iter()
+        .map(|(name, m)| {
+            let typed: cat::Mat = m.iter().map(|r| r.iter().map(|v| T::of(v * cs).f()).collect()).collect();
+            let cond = mc::oracle::cond2(&typed);
+            (name, typed, cond)
+        })
+        .filter(|(_, _, cond)| *cond <= 1e4)
+        .collect();
+    let qv: Vec<(String, Vec<f64>)> = match job.s("queries") {
+        "S5" => cat::lattice(cat::S5, n).into_iter().map(|v| (String::new(), v)).collect(),
+        "S3" => cat::lattice(cat::S3, n).into_iter().map(|v| (String::new(), v)).collect(),
+        "structured" => cat::structured(n, false),
+        other => panic!("unknown query set {}", other),
+    };
+    CovCat { mats, q: build_cat::<T>(qv, scale_of(job)) }
+}
+
+fn maha_class<T: Fl>(n: usize, l2: i32, inv_max_l2: i32) -> Option<&'static str> {
+    let logn = ((n * n) as f64).log2().ceil() as i32;
+    if 2 * (l2 + 1) + inv_max_l2 + 1 + logn >= T::EMAX {
+        Some("squares-overflow")
+    } else if 2 * l2 + inv_max_l2 < T::EMIN {
+        Some("squares-underflow")
+    } else {
+        None
+    }
+}
+
+fn mcov_exec<T: Fl>(job: &Job) {
+    let cc: Rc<CovCat<T>> = cached(&job.name, || cov_catalogue::<T>(job));
+    let (lo, hi) = (job.params["mlo"].as_u64().unwrap_or(0) as usize, job.params["mhi"].as_u64().map(|h| h as usize).unwrap_or(cc.mats.len()).min(cc.mats.len()));
+    if hi <= lo {
+        mc::count("empty_matrix_chunk");
+        return;
+    }
+    let mi = lo + mc::choose(hi - lo);
+    let (name, sigma, cond) = &cc.mats[mi];
+    let q = &cc.q;
+    let i = mc::choose(q.typed.len());
+    let j = mc::choose(q.typed.len());
+    let n = q.n;
+    let what = || format!("covariance {} = {:?} (cond2 {:.1}) [{}]", name, sigma, cond, T::NAME);
+    let md = match mc::guard(|| Mahalanobis::new_from_covariance(&mc_sc::dm::<T>(sigma))) {
+        Ok(m) => m,
+        Err(p) => {
+            mc::violation("mahalanobis.new_from_covariance:panic", format!("{}: {}", what(), p.brief()));
+            return;
+        }
+    };
+    let Some(inv) = dd::inverse(&dd::dd_mat(sigma)) else {
+        panic!("reference inverse failed on a catalogue matrix {:?}", sigma);
+    };
+    let inv_max = inv.iter().flatten().fold(0.0f64, |m, v| m.max(v.hi.abs()));
+    let (xv, yv) = (&q.vals[i], &q.vals[j]);
+    let df = dd::diff(xv, yv);
+    let ctx = || format!("{} x={:?} y={:?}", what(), xv, yv);
+    let refv = if df.zero { 0.0 } else { df.quadratic(&inv).to_f64() };
+    let class = if df.zero { None } else { maha_class::<T>(n, df.log2_max(), dd::ilog2(inv_max)) };
+    let call = |a: usize, b: usize| mc::guard(|| md.distance(&q.typed[a], &q.typed[b]).f());
+    let units = maha_tol_units(n, *cond);
+    let o = judge_pair::<T>("mahalanobis", "Mahalanobis", class, df.zero, [call(i, j), call(j, i), call(i, i)], refv, units, &ctx);
+    let is_identity = (0..n).all(|a| (0..n).all(|b| sigma[a][b] == if a == b { 1.0 } else { 0.0 }));
+    if is_identity && !o.dxy.is_nan() {
+        if let Ok(e) = mc::guard(|| Distances::euclidian().distance(&q.typed[i], &q.typed[j]).f()) {
+            mc::count("coincidence_checks");
+            if !((e - o.dxy).abs() <= o.tol + (8.0 + n as f64) * T::EPS * refv || e == o.dxy) {
+                mc::violation(site("mahalanobis", "identity-vs-euclidian", class), format!("Mahalanobis(I) = {:e} but Euclidian = {:e} for {}", o.dxy, e, ctx()));
+            }
+        }
+    } else if !is_identity {
+        mc::count("maha_nonidentity_covariance");
+    }
+    let (mut triples, mut tight) = (0u64, 0u64);
+    if !o.dxy.is_nan() {
+        let rel = units * T::EPS;
+        for k in 0..q.typed.len() {
+            let (Ok(dxz), Ok(dzy)) = (call(i, k), call(k, j)) else { continue };
+            triples += 1;
+            if !triangle_ok(o.dxy, dxz, dzy, rel) {
+                let l3 = [max_l2(xv, yv), max_l2(xv, &q.vals[k]), max_l2(&q.vals[k], yv)].iter().flatten().max().copied();
+                let class = l3.and_then(|l| maha_class::<T>(n, l, dd::ilog2(inv_max)));
+                mc::violation(site("mahalanobis", "triangle", class), format!("Mahalanobis {} z={:?}: d(x,y) = {:e} > d(x,z) + d(z,y) = {:e} + {:e}", ctx(), q.vals[k], o.dxy, dxz, dzy));
+            } else if o.dxy > 0.0 && dxz > 0.0 && dzy > 0.0 && o.dxy >= (dxz + dzy) * (1.0 - rel) {
+                tight += 1;
+            }
+        }
+    }
+    mc::count_n("triples_checked", triples);
+    mc::count_n("triangle_tight", tight);
+    mc::count("pair_metric_checks");
+    if !df.zero {
+        mc::nontrivial();
+        mc::count("pairs_distinct_vectors");
+    }
+    mc::outcome(mc::hash::mix(0x18, mc::hash::canon_bits(o.dxy)));
+    mc::describe(|| json!({"family": "mahalanobis from covariance", "type": T::NAME, "covariance": sigma, "covariance_name": name, "cond2": cond, "vector_scale": scale_text(job), "x": xv, "y": yv, "library": o.dxy, "closed_form": refv, "triples_checked": triples}));
+}
+
+// ------------------------------------------------------------------------------------------------
+// Mahalanobis from data: one execution = one data set; all pairs and triples of a small query set
+
+fn mdata_exec<T: Fl>(job: &Job) {
+    let d = job.u("d");
+    let m = job.u("m");
+    let ordered = job.b("ordered");
+    let ds = dd::ldexp(1.0, job.params["ds2"].as_i64().unwrap_or(0) as i32);
+    let pts = cat::data_points(d);
+    let np = pts.len();
+    let mut idx: Vec<usize> = Vec::with_capacity(m);
+    let r0 = job.u("r0");
+    idx.push(r0);
+    for _ in 1..m {
+        let prev = *idx.last().unwrap();
+        let k = if ordered { mc::choose(np) } else { prev + mc::choose(np - prev) };
+        idx.push(k);
+    }
+    let rows_int: Vec<Vec<f64>> = idx.iter().map(|k| pts[*k].clone()).collect();
+    if !cat::full_rank(&rows_int) {
+        mc::count("data_sets_rank_deficient_skipped");
+        return;
+    }
+    mc::count("data_sets_full_rank");
+    let rows: Vec<Vec<f64>> = rows_int.iter().map(|r| r.iter().map(|v| T::of(v * ds).f()).collect()).collect();
+    let what = || format!("data rows {:?} [{}]", rows, T::NAME);
+    let md = match mc::guard(|| Distances::mahalanobis(&mc_sc::dm::<T>(&rows))) {
+        Ok(v) => v,
+        Err(p) => {
+            mc::violation("mahalanobis.new:panic", format!("{}: {}", what(), p.brief()));
+            return;
+        }
+    };
+    let cov = dd::sample_cov(&rows);
+    let covf: cat::Mat = cov.iter().map(|r| r.iter().map(|v| v.to_f64()).collect()).collect();
+    let cond = mc::oracle::cond2(&covf);
+    let Some(inv) = dd::inverse(&cov) else { panic!("reference inverse failed for full-rank data {:?}", rows) };
+    let inv_max = inv.iter().flatten().fold(0.0f64, |m, v| m.max(v.hi.abs()));
+    // query points: the lattice itself (d <= 2) or a fixed 8-point subset (d = 3), scaled like the data
+    let qraw: Vec<Vec<f64>> = if d <= 2 {
+        pts.clone()
+    } else {
+        vec![vec![0.0, 0.0, 0.0], vec![1.0, 0.0, 0.0], vec![0.0, 1.0, 0.0], vec![0.0, 0.0, 1.0], vec![-1.0, 0.0, 0.0], vec![1.0, 1.0, 1.0], vec![1.0, -1.0, 0.0], vec![-1.0, 1.0, 1.0]]
+    };
+    let q = build_cat::<T>(qraw.into_iter().map(|v| (String::new(), v)).collect(), ds);
+    let nq = q.typed.len();
+    let units = maha_tol_units(d, cond);
+    let mut dist = vec![vec![f64::NAN; nq]; nq];
+    let mut digest = 0x19u64;
+    for i in 0..nq {
+        for j in 0..nq {
+            let (xv, yv) = (&q.vals[i], &q.vals[j]);
+            let df = dd::diff(xv, yv);
+            let refv = if df.zero { 0.0 } else { df.quadratic(&inv).to_f64() };
+            let class = if df.zero { None } else { maha_class::<T>(d, df.log2_max(), dd::ilog2(inv_max)) };
+            let call = |a: usize, b: usize| mc::guard(|| md.distance(&q.typed[a], &q.typed[b]).f());
+            let ctx = || format!("{} (sample covariance {:?}, cond2 {:.1}) x={:?} y={:?}", what(), covf, cond, xv, yv);
+            let o = judge_pair::<T>("mahalanobis", "Mahalanobis(from data)", class, df.zero, [call(i, j), call(j, i), call(i, i)], refv, units, &ctx);
+            dist[i][j] = o.dxy;
+            digest = mc::hash::mix(digest, mc::hash::canon_bits(o.dxy));
+        }
+    }
+    mc::count_n("pair_metric_checks", (nq * nq) as u64);
+    mc::count_n("pairs_distinct_vectors", (nq * nq - nq) as u64);
+    let rel = units * T::EPS;
+    let (mut triples, mut tight) = (0u64, 0u64);
+    for i in 0..nq {
+        for j in 0..nq {
+            for k in 0..nq {
+                let (dxy, dxz, dzy) = (dist[i][j], dist[i][k], dist[k][j]);
+                if dxy.is_nan() || dxz.is_nan() || dzy.is_nan() {
+                    continue;
+                }
+                triples += 1;
+                if !triangle_ok(dxy, dxz, dzy, rel) {
+                    mc::violation("mahalanobis.distance:triangle", format!("Mahalanobis(from data) {} x={:?} y={:?} z={:?}: d(x,y) = {:e} > d(x,z) + d(z,y) = {:e} + {:e}", what(), q.vals[i], q.vals[j], q.vals[k], dxy, dxz, dzy));
+                } else if dxy > 0.0 && dxz > 0.0 && dzy > 0.0 && dxy >= (dxz + dzy) * (1.0 - rel) {
+                    tight += 1;
+                }
+            }
+        }
+    }
+    mc::count_n("triples_checked", triples);
+    mc::count_n("triangle_tight", tight);
+    mc::nontrivial();
+    mc::outcome(digest);
+    mc::describe(|| json!({"family": "mahalanobis from data", "type": T::NAME, "rows": rows, "sample_covariance": covf, "cond2": cond, "query_points": q.vals, "library_distances": dist}));
+}
+
+// ------------------------------------------------------------------------------------------------
+// mismatched lengths must be rejected (the distances return a plain number, so rejection = panic)
+
+fn mismatch_exec<T: Fl>(_job: &Job) {
+    let kind = mc::choose(15);
+    let lx = mc::choose(5);
+    let ly = mc::choose(5);
+    let content = mc::choose(2);
+    // content 0: the shorter vector is a prefix of the longer one (a zip-style truncation would
+    // silently return 0); content 1: all values distinct
+    let x: Vec<T> = (0..lx).map(|i| T::of((i + 1) as f64)).collect();
+    let y: Vec<T> = (0..ly).map(|i| T::of(if content == 0 { (i + 1) as f64 } else { 10.0 + i as f64 })).collect();
+    let (xi, yi): (Vec<i64>, Vec<i64>) = (x.iter().map(|v| v.f() as i64).collect(), y.iter().map(|v| v.f() as i64).collect());
+    let (comp, label, expect_reject, r): (&str, String, bool, Result<f64, mc::PanicInfo>) = if kind < 12 {
+        let m = METS[kind];
+        let r = mc::guard(|| match m {
+            Met::Eu => Euclidian {}.distance(&x, &y).f(),
+            Met::Ma => Manhattan {}.distance(&x, &y).f(),
+            Met::Mi(p) => Minkowski { p }.distance(&x, &y).f(),
+            Met::HaF => <Hamming as Distance<Vec<T>, T>>::distance(&Hamming {}, &x, &y).f(),
+            Met::HaI => <Hamming as Distance<Vec<i64>, T>>::distance(&Hamming {}, &xi, &yi).f(),
+            Met::MhI => unreachable!(),
+        });
+        (m.comp(), m.label(), lx != ly, r)
+    } else {
+        let dim = kind - 11; // 1..=3
+        let cov: Vec<Vec<f64>> = (0..dim).map(|a| (0..dim).map(|b| if a == b { 2.0 } else { 0.5 }).collect()).collect();
+        let md = match mc::guard(|| Mahalanobis::new_from_covariance(&mc_sc::dm::<T>(&cov))) {
+            Ok(m) => m,
+            Err(p) => {
+                mc::violation("mahalanobis.new_from_covariance:panic", format!("covariance {:?} [{}]: {}", cov, T::NAME, p.brief()));
+                return;
+            }
+        };
+        let r = mc::guard(|| md.distance(&x, &y).f());
+        ("mahalanobis", format!("Mahalanobis(covariance of order {})", dim), lx != dim || ly != dim, r)
+    };
+    let xs: Vec<f64> = x.iter().map(|v| v.f()).collect();
+    let ys: Vec<f64> = y.iter().map(|v| v.f()).collect();
+    match (&r, expect_reject) {
+        (Ok(v), true) => {
+            mc::violation(format!("{}.distance:mismatched-lengths-accepted", comp), format!("{} [{}]: x={:?} (length {}) y={:?} (length {}) was not rejected, returned {:e}", label, T::NAME, xs, lx, ys, ly, v));
+        }
+        (Err(p), false) => {
+            mc::violation(format!("{}.distance:panic", comp), format!("{} [{}]: x={:?} y={:?} of matching length: {}", label, T::NAME, xs, ys, p.brief()));
+        }
+        (Err(_), true) => mc::count("mismatched_lengths_rejected"),
+        (Ok(_), false) => mc::count("matching_lengths_accepted"),
+    }
+    mc::nontrivial();
+    mc::outcome(mc::hash::mix(0x20, match &r {
+        Ok(v) => mc::hash::canon_bits(*v),
+        Err(_) => 1,
+    }));
+    mc::describe(|| json!({"family": "mismatched lengths", "type": T::NAME, "metric": label, "x": xs, "y": ys, "expected": if expect_reject { "rejected (panic)" } else { "accepted" }, "observed": match &r { Ok(v) => format!("returned {:e}", v), Err(p) => p.brief() }}));
+}
+
+// ------------------------------------------------------------------------------------------------
+
+fn dispatch(job: &Job) {
+    let f32_ = job.s("ty") == "f32";
+    match (job.kind(), f32_) {
+        ("lp", false) => lp_exec::<f64>(job),
+        ("lp", true) => lp_exec::<f32>(job),
+        ("mcov", false) => mcov_exec::<f64>(job),
+        ("mcov", true) => mcov_exec::<f32>(job),
+        ("mdata", false) => mdata_exec::<f64>(job),
+        ("mdata", true) => mdata_exec::<f32>(job),
+        ("mismatch", false) => mismatch_exec::<f64>(job),
+        ("mismatch", true) => mismatch_exec::<f32>(job),
+        (other, _) => panic!("unknown job kind {}", other),
+    }
+}
+
+const TYPES: [&str; 2] = ["f64", "f32"];
+
+/// lp jobs for one vector catalogue of `count` vectors, split into chunks of x so that one job stays
+/// around a second.
+#[allow(clippy::too_many_arguments)]
+fn push_lp(jobs: &mut Vec<Job>, src: &str, alpha: &str, len: usize, full: bool, count: usize, chunks: usize, sc10: i64, sc2: i64, ty: &str, seed: u64) {
+    let chunks = chunks.max(1).min(count.max(1));
+    for c in 0..chunks {
+        let (lo, hi) = (count * c / chunks, count * (c + 1) / chunks);
+        let what = if src == "lattice" { format!("{}^{}", alpha, len) } else { format!("structured{}-n{}", if full { "-full" } else { "" }, len) };
+        let name = format!("lp-{}-x1e{}x2^{}-{}-part{}of{}", what, sc10, sc2, ty, c + 1, chunks);
+        jobs.push(Job::new(name, json!({"kind": "lp", "src": src, "alpha": alpha, "len": len, "full": full, "sc10": sc10, "sc2": sc2, "ty": ty, "lo": lo, "hi": hi, "seed": seed})));
+    }
+}
+
+impl Harness for C17 {
+    fn id(&self) -> &'static str {
+        "C17"
+    }
+
+    fn plan(&self, tier: Tier, seed: u64) -> Plan {
+        let t = tier.is_thorough();
+        let mut jobs: Vec<Job> = Vec::new();
+        for ty in TYPES {
+            jobs.push(Job::new(format!("mismatch-{}", ty), json!({"kind": "mismatch", "ty": ty})));
+        }
+        // ---- lattices: (alphabet, len, chunks) simplest first
+        let lattices: Vec<(&str, usize, usize)> = if t {
+            vec![("S5", 1, 1), ("S9", 1, 1), ("S5", 2, 1), ("S9", 2, 2), ("S3", 3, 1), ("MIX", 2, 1), ("S5", 3, 6), ("MIX", 3, 6), ("S3", 4, 2), ("S3", 5, 12), ("S5", 4, 125), ("MIX", 4, 125)]
+        } else {
+            vec![("S5", 1, 1), ("S5", 2, 1), ("S3", 3, 1), ("MIX", 2, 1), ("S5", 3, 4), ("S3", 4, 2), ("MIX", 3, 4)]
+        };
+        for (alpha, len, chunks) in &lattices {
+            let count = cat::alphabet(alpha).len().pow(*len as u32);
+            let scales: &[i64] = if *alpha == "MIX" { &[0] } else { &[0, -6, 6] };
+            for sc10 in scales {
+                for ty in TYPES {
+                    push_lp(&mut jobs, "lattice", alpha, *len, false, count, *chunks, *sc10, 0, ty, seed);
+                }
+            }
+        }
+        // ---- extreme magnitudes: squares / powers of the differences leave the range of T
+        let extreme: [(&str, &[i64]); 2] = [("f64", &[520, -520, -540, 600, -600]), ("f32", &[70, -70, -80, 100, -100])];
+        for (ty, exps) in extreme {
+            for sc2 in exps {
+                for len in 1..=(if t { 3 } else { 2 }) {
+                    push_lp(&mut jobs, "lattice", "S3", len, false, 3usize.pow(len as u32), 1, 0, *sc2, ty, seed);
+                }
+            }
+        }
+        // ---- structured vectors, every length 1..30
+        for n in 1..=30usize {
+            let count = cat::structured(n, t).len();
+            for sc10 in [0i64, -6, 6] {
+                for ty in TYPES {
+                    push_lp(&mut jobs, "structured", "-", n, t, count, if t { 1 + n / 4 } else { 1 }, sc10, 0, ty, seed);
+                }
+            }
+        }
+        // ---- Mahalanobis from covariance matrices
+        let cov_scales: &[i64] = if t { &[0, 20, -20, 40, -40] } else { &[0, 20, -20] };
+        for ty in TYPES {
+            for cs2 in cov_scales {
+                for sc10 in [0i64, -6, 6] {
+                    jobs.push(Job::new(format!("mcov-spd2-cov2^{}-x1e{}-{}", cs2, sc10, ty), json!({"kind": "mcov", "set": "spd2", "dim": 2, "queries": "S5", "cs2": cs2, "sc10": sc10, "ty": ty})));
+                    let set3 = if t { "spd3t" } else { "spd3q" };
+                    let n3 = if t { cat::spd3(3, &[0, 1, -1, 2, -2]).len() } else { cat::spd3(2, &[0, 1, -1]).len() };
+                    let chunks = if t { 16 } else { 2 };
+                    for c in 0..chunks {
+                        jobs.push(Job::new(
+                            format!("mcov-{}-cov2^{}-x1e{}-{}-part{}of{}", set3, cs2, sc10, ty, c + 1, chunks),
+                            json!({"kind": "mcov", "set": set3, "dim": 3, "queries": "S3", "cs2": cs2, "sc10": sc10, "ty": ty, "mlo": n3 * c / chunks, "mhi": n3 * (c + 1) / chunks}),
+                        ));
+                    }
+                }
+            }
+            for n in 4..=(if t { 12 } else { 8 }) {
+                for sc10 in [0i64, 6] {
+                    jobs.push(Job::new(format!("mcov-structured-n{}-x1e{}-{}", n, sc10, ty), json!({"kind": "mcov", "set": "struct", "dim": n, "queries": "structured", "cs2": 0, "sc10": sc10, "ty": ty})));
+                }
+            }
+        }
+        // ---- Mahalanobis from data: (d, m, ordered)
+        let data: Vec<(usize, usize, bool)> = if t {
+            vec![(1, 2, true), (1, 3, true), (1, 4, true), (1, 5, true), (2, 3, true), (2, 4, true), (2, 5, true), (2, 6, false), (3, 4, true), (3, 5, false)]
+        } else {
+            vec![(1, 2, true), (1, 3, true), (1, 4, true), (2, 3, true), (2, 4, true), (2, 5, true), (3, 4, false)]
+        };
+        for (d, m, ordered) in data {
+            let np = cat::data_points(d).len();
+            let dscales: &[i64] = if t { &[0, 20, -20] } else { &[0] };
+            for ds2 in dscales {
+                for ty in TYPES {
+                    for r0 in 0..np {
+                        jobs.push(Job::new(
+                            format!("mdata-d{}-m{}-{}-x2^{}-{}-first{}", d, m, if ordered { "sequences" } else { "multisets" }, ds2, ty, r0),
+                            json!({"kind": "mdata", "d": d, "m": m, "ordered": ordered, "ds2": ds2, "ty": ty, "r0": r0}),
+                        ));
+                    }
+                }
+            }
+        }
+        Plan {
+            jobs,
+            budget_s: if t { 2700 } else { 40 },
+            case_deadline_ms: 20_000,
+            floors: vec![
+                ("pairs_distinct_vectors", 10_000),
+                ("pairs_identical_vectors", 500),
+                ("pairs_one_coordinate_differs", 500),
+                ("triples_checked", 1_000_000),
+                ("triangle_tight", 1_000),
+                ("coincidence_checks", 10_000),
+                ("mismatched_lengths_rejected", 100),
+                ("matching_lengths_accepted", 20),
+                ("maha_nonidentity_covariance", 1_000),
+                ("data_sets_full_rank", 1_000),
+                ("data_sets_rank_deficient_skipped", 100),
+                ("intermediate_out_of_range_cases", 100),
+                ("symmetry_bit_exact", 10_000),
+            ],
+            bounds: json!({
+                "types": "f64 and f32 for every family",
+                "metrics": "Euclidian, Manhattan, Minkowski p=1..8, Hamming over float and over i64 elements, Mahalanobis(identity) on every pair; Mahalanobis from covariance / from data in their own families",
+                "lattices": lattices.iter().map(|(a, l, _)| format!("{}^{}", a, l)).collect::<Vec<_>>(),
+                "lattice_scales": "1, 1e-6, 1e6 (alphabet MIX = {0,1,-1e6,1e-6,-3} mixes magnitudes inside a vector)",
+                "extreme_scales": "S3^len (len<=2 quick / 3 thorough) times 2^{±520,-540,±600} (f64), 2^{±70,-80,±100} (f32)",
+                "pairs_and_triples": "every ordered pair (x,y) of each catalogue is one execution; inside it every z of the catalogue is used for the triangle inequality, so every ordered triple is covered",
+                "structured": format!("every length 1..30, {} catalogue (zero, ones, ramps, alternating, unit vectors, one-coordinate modifications incl. +1e-9, mixed magnitudes, fractions), scales 1, 1e-6, 1e6", if t { "full" } else { "reduced" }),
+                "mahalanobis_covariance": format!("every integer SPD 2x2 with |entries|<=3 on S5^2; every integer SPD 3x3 with {} and cond2<=1e4 on S3^3; structured SPD families (identity, Toeplitz(2,-1), min(i,j), rank-one+ridge, graded diagonal, D*T*D) of order 4..{}; covariance scaled by 2^k, k in {:?}; vector scales 1, 1e-6, 1e6", if t { "diag 1..3, off-diag in -2..2" } else { "diag 1..2, off-diag in -1..1" }, if t { 12 } else { 8 }, cov_scales),
+                "mahalanobis_data": "every sequence (or multiset where stated) of m lattice rows in d dimensions with positive-definite sample covariance; all pairs and triples of the lattice (d<=2) / 8 fixed points (d=3) as arguments",
+                "mismatched_lengths": "every metric x lengths 0..4 x 0..4 (Mahalanobis of order 1..3) x {prefix-consistent, distinct} contents",
+                "seed": format!("perturbation {:?} (a*v+b) of the lattice alphabets", cat::perturbation(seed)),
+            }),
+        }
+    }
+
+    fn run(&self, job: &Job) {
+        dispatch(job)
+    }
+
+    fn rule(&self) -> String {
+        "one execution = one ordered pair of vectors (with every third vector of the catalogue for the triangle inequality) under one type, scale and catalogue — or one data set / one mismatched-length call; non-trivial when the two vectors differ (data sets: when full rank); distinct = distinct digest of the bit patterns of the distances the library returned".into()
+    }
+
+    fn assumptions(&self) -> Vec<String> {
+        vec![
+            "closed forms are evaluated in double-double arithmetic on exact coordinate differences, rescaled by a power of two (self-tested against exact integer arithmetic at start-up)".into(),
+            "'up to rounding' = (8+n) eps for Euclidian/Manhattan, (8+n+|ln d|) eps for Minkowski, 2 eps for Hamming, (32+8n^2)*cond2 eps for Mahalanobis, relative to the closed form; the triangle inequality and symmetry get three times / once that slack".into(),
+            "covariance from data = unbiased sample covariance (denominator m-1)".into(),
+            "rejection of mismatched lengths = panic (the API returns a bare number)".into(),
+            "no library RNG is involved in this property".into(),
+        ]
+    }
+}
+
+fn main() {
+    if let Err(e) = dd::self_test() {
+        eprintln!("MACHINERY-ERROR: reference arithmetic self-test failed: {}", e);
+        std::process::exit(2);
+    }
+    mc::main(C17)
+}
+
+#[allow(dead_code)]
+fn _v(_: Value) {}
